@@ -16,7 +16,8 @@ fn run(src: &str) -> gomini::RunResult {
 }
 
 fn prog(decls: &str, body: &str) -> String {
-    format!("package main\n\nimport (\n    \"fmt\"\n)\n\n{}\n\nfunc main() {{\n{}\n}}\n", decls, body)
+    let import = if decls.contains("fmt.") || body.contains("fmt.") { "import (\n    \"fmt\"\n)\n\n" } else { "" };
+    format!("package main\n\n{}{}\n\nfunc main() {{\n{}\n}}\n", import, decls, body)
 }
 
 fn expect_out(name: &str, decls: &str, body: &str, want: &str) {
@@ -291,7 +292,7 @@ fn conversions() {
 
 #[test]
 fn fmt_behaviour() {
-    expect_out("print spacing", "", "fmt.Print(\"a\", 1, 2, \"b\", \"c\", 3.5, true, false)\nfmt.Println()\nfmt.Println(\"a\", 1, 2, \"b\", \"c\", 3.5)\nfmt.Print(1, 2)\nfmt.Print(\"\\n\")", "a1 2bc3.5 true false\n\na 1 2 b c 3.5\n1 2\n");
+    expect_out("print spacing", "", "fmt.Print(\"a\", 1, 2, \"b\", \"c\", 3.5, true, false)\nfmt.Println()\nfmt.Println(\"a\", 1, 2, \"b\", \"c\", 3.5)\nfmt.Print(1, 2)\nfmt.Print(\"\\n\")", "a1 2bc3.5 true false\na 1 2 b c 3.5\n1 2\n");
     expect_out(
         "bad verbs",
         "",
